@@ -27,6 +27,7 @@ var (
 	globalC       *config
 	consoleAppDir string
 	demosAppDir   string
+	netTimeout    = time.Second * 45 // network time-out; only the verif build can change it
 )
 
 // InitConfig 初始化 Config
@@ -139,7 +140,7 @@ func DemosAppDir() (string, bool) {
 
 // NetTimeout 返回网络超时设置
 func NetTimeout() time.Duration {
-	return time.Second * 45
+	return netTimeout
 }
 
 // NetHeartbeatInterval 返回网络心跳间隔
